@@ -60,6 +60,7 @@ type Obligation struct {
 // FnCtx is the verification context of one function under contract: all
 // obligations, assumptions and declarations generated from it.
 type FnCtx struct {
+	rootLets map[string]CV // `def` names of the contract under verification
 	reveal map[string]bool // hidden spec functions whose definitions are visible (lemma proofs)
 	touchedGhost map[string]bool // when non-nil: names of ghost cells touched (havocGhostsForCall)
 	frame *frameInfo // modifies clause of the function under verification (nil: no frame check)
